@@ -286,6 +286,7 @@ def builder_kwargs(spec_b, H=None):
 
 
 _BUILDER_NS: dict = {}
+_VCTR = [0]
 BUILDER_POOL = [{"basetype": "MyBase"}, {"basetype": "OtherBase"}, {"constructors": ["Num"]}, {"constructors": ["Num", "Word"]},
                 {"typedefs": ["Num", "Word"]}, {"synthok": False}, {"builderconfig": "MyBase"}, {"basetype": "MyBase", "synthok": False},
                 {"constructors": ["fnNum", "fnKw", "fnWord"]}, {"constructors": ["fnNum", "fnKw", "fnWord"]}, {"tdmod": "calc"}, {"tdmod": "word"}, {"bh": "B1"}, {"bh": "B1", "tdmod": "calc"}, {"bh": "B2", "tdmod": "text"}]
@@ -644,6 +645,8 @@ def exec_op(op, H, probes=None):
     bld_obj = bkw.get("builderconfig", bkw.get("constructors")) if (op.get("builder") or {}).get("bh") else None
     bld_before = canon_builder_obj(bld_obj) if bld_obj is not None else None
 
+    raw = []  # what a parse returned: the caller keeps it, and it must still read the same after later calls
+
     def call():
         if kind == "compile":
             kw = op_kwargs(op)
@@ -664,7 +667,8 @@ def exec_op(op, H, probes=None):
             if sem is not None:
                 kw["semantics"] = sem
             kw.update(bkw)
-            return {"value": canon(tatsu.parse(GRAMMARS[op["g"]], op["text"], **kw))}
+            raw.append(tatsu.parse(GRAMMARS[op["g"]], op["text"], **kw))
+            return {"value": canon(raw[0])}
         if kind in ("mparse", "pparse"):
             ent = H.get(op["h"])
             if ent is None:
@@ -679,7 +683,8 @@ def exec_op(op, H, probes=None):
                     sem.inner_text = op.get("inner", op["text"])
             if cfg_obj is not None:
                 kw["config"] = cfg_obj
-            return {"value": canon(ent[1].parse(op["text"], **kw))}
+            raw.append(ent[1].parse(op["text"], **kw))
+            return {"value": canon(raw[0])}
         if kind == "src":
             src = tatsu.to_python_sourcecode(GRAMMARS[op["g"]], **op_kwargs(op))
             return {"src": hashlib.sha256(src.encode()).hexdigest()[:20], "len": len(src)}
@@ -740,6 +745,11 @@ def exec_op(op, H, probes=None):
                 probes["foreign_exception_crossed_parse"] = probes.get("foreign_exception_crossed_parse", 0) + 1
     if intr is not None and not intr.fired:
         res = {"not_interrupted": res}
+    if raw and isinstance(res, dict) and "value" in res and not isinstance(raw[0], (str, int, float, bool, type(None))):
+        _VCTR[0] += 1
+        H[f"v{_VCTR[0]}"] = ("val", raw[0])
+        if len([k for k in H if k.startswith("v")]) > 6:
+            H.pop(next(k for k in H if k.startswith("v")))  # the caller lets go of the oldest result
     if cfg_obj is not None:
         after = canon_config(cfg_obj)
         if after != cfg_before:
@@ -761,6 +771,9 @@ def dump_handles(H):
         if k in ("sem", "cfg", "bld"):
             continue
         try:
+            if k == "val":
+                out[h] = {"value": canon(obj)}
+                continue
             out[h] = dump_model(obj) if k == "model" else dump_parser(obj)
         except Exception as e:  # noqa: BLE001
             out[h] = {"dump_failed": type(e).__name__ + ": " + str(e)[:200]}
